@@ -2,6 +2,7 @@
 import itertools
 import random
 
+from bcheck import history
 from bcheck.common import Collector, args, run_sharded, call
 from bcheck import urlref as R
 
@@ -54,9 +55,22 @@ def edge_ws(u):
     return c != c.strip()
 
 
+def other_scheme_same_netloc(tu):
+    """the same authority text under the OTHER web scheme (where that explicit port is not a default): a legitimate earlier call of the same process"""
+    if tu.lower().startswith("https://"):
+        return "http://" + tu[8:]
+    if tu.lower().startswith("http://"):
+        return "https://" + tu[7:]
+    return None
+
+
 def check_T(col, name, u, tu, opts):
     if not parseable(u) or not parseable(tu):
         return
+    if name == "explicit-default-port":
+        o = other_scheme_same_netloc(tu)
+        if o:
+            canon(o, **opts)      # call history: nothing may stick to the authority text
     if edge_ws(u):
         return
     a, b = canon(u, **opts), canon(tu, **opts)
@@ -165,6 +179,8 @@ def shard(job):
 def main():
     a = args("C02")
     col = Collector("C02", a.tier, a.seed)
+    if a.replay and history.replayed(a, col, "C02"):
+        return
     if a.replay:
         import json
         rp = json.load(open(a.replay))
@@ -230,6 +246,7 @@ def main():
                 "multi-component URLs with pairwise composed transformations. escaped-vs-raw is only applied to token sequences without malformed / "
                 "non-UTF-8 / escaped-percent tokens (otherwise the two strings are not the same URL). distinct_nontrivial = distinct (transformation, URL) "
                 "pairs and base URLs evaluated" % maxlen)
+    history.run(col, "C02", a.tier == "quick")
     col.dump(a.out)
 
 
